@@ -144,6 +144,12 @@ func c17Variants() []genCall {
 	add("user-templates broken (fails)", c17SpecA, func(c *codegen.Configuration) {
 		c.OutputOptions.UserTemplates = map[string]string{"typedef.tmpl": "{{range .Types}\nbroken\n"}
 	})
+	add("user-templates fail while executing, after writing text", c17SpecA, func(c *codegen.Configuration) {
+		c.OutputOptions.UserTemplates = map[string]string{"typedef.tmpl": "// ---- leftover banner ----\n{{range .Types}}// leftover {{.TypeName}}\n{{end}}{{index .Types 9999}}"}
+	})
+	add("user-templates of the client fail while executing, after writing text", c17SpecA, func(c *codegen.Configuration) {
+		c.OutputOptions.UserTemplates = map[string]string{"client.tmpl": "// ---- leftover client banner ----\n{{range .}}// leftover {{.OperationId}}\n{{end}}{{index . 9999}}"}
+	})
 	add("chi+strict", c17SpecA, func(c *codegen.Configuration) {
 		c.Generate = codegen.GenerateOptions{ChiServer: true, Strict: true, Models: true}
 	})
